@@ -271,6 +271,53 @@ print(json.dumps(bad[:5]))
 """
 
 
+NAMESAKE_ENUM = r"""
+import importlib, json, sys
+sys.path.insert(0, sys.argv[1])
+import logging; logging.disable(logging.CRITICAL)
+mb, cb, order = sys.argv[2:5]
+from richchk.model.richchk.richchk_enum import RichChkEnum
+from richchk.transcoder.richchk.transcoders.helpers.richchk_enum_transcoder import RichChkEnumTranscoder as X
+E = getattr(importlib.import_module(mb), cb)
+# an application's own enumeration that happens to carry the SAME class name (an extended copy, a notebook re-definition)
+F = RichChkEnum(cb, {"FOREIGN_A": (100000, "foreign a"), "FOREIGN_B": (next(iter(E)).id, "foreign b")})
+assert F.__name__ == E.__name__ and F is not E
+bad = []
+def sweep(T, others):
+    for m in T:
+        try:
+            if not X.contains_enum_by_id(m.id, T) or X.decode_enum(m.id, T) is not m or X.encode_enum(m) != m.id:
+                bad.append(T.__module__ + "." + m.name)
+        except Exception as ex:
+            bad.append(T.__module__ + "." + m.name + ":" + type(ex).__name__)
+    own = {m.id for m in T}
+    for o in others:
+        if o.id not in own and X.contains_enum_by_id(o.id, T):
+            bad.append(T.__module__ + ": foreign id " + str(o.id) + " reported present")
+for T in ((F, E) if order == "0" else (E, F)):
+    sweep(T, list(F if T is E else E))
+print(json.dumps(bad[:5]))
+"""
+
+
+def namesake_enum_cases(es):
+    """every library enum swept next to an unrelated enum class of the SAME NAME living in the same process (looked up
+    before it and after it): a table found by class name instead of by class serves the wrong members"""
+    import subprocess
+    from concurrent.futures import ThreadPoolExecutor
+    jobs = [(E.__module__, E.__name__, o) for E, _ in es.values() for o in ("0", "1")]
+
+    def one(j):
+        p = subprocess.run(["/venv/bin/python", "-c", NAMESAKE_ENUM, str(vlib.SRC), *j], stdout=subprocess.PIPE,
+                           stderr=subprocess.PIPE, text=True, timeout=120, env={"PATH": "/usr/bin:/bin", "PYTHONHASHSEED": "0"})
+        try:
+            return j, json.loads(p.stdout.strip().splitlines()[-1])
+        except Exception:  # noqa
+            return j, ["process failed: " + p.stderr[-200:]]
+    with ThreadPoolExecutor(max_workers=vlib.NCPU) as ex:
+        return list(ex.map(one, jobs))
+
+
 def late_enum_cases(es, optimised=False):
     """every enum used for the first time AFTER another enum's first lookup, in a fresh interpreter each;
     optimised = the interpreter runs with -O (assert statements are not executed)"""
@@ -347,6 +394,13 @@ def run(ck: vlib.Check):
         if bad:
             ck.violation(f"under python -O, enum {cb} (first used after {first[1]}) is not exact: members {bad}",
                          {"kind": "late-enum", "optimised": True, "first": list(first), "enum": [mb, cb], "members": bad}, True)
+    for (mb, cb, order), bad in namesake_enum_cases(es):
+        ck.evaluations += 1
+        ck.note_case(f"namesake-enum:{cb}:{order}")
+        if bad:
+            ck.violation(f"enum {cb}, with an unrelated enum class of the same name in the process (looked up "
+                         f"{'first' if order == '0' else 'second'}), is not exact: {bad}",
+                         {"kind": "namesake-enum", "enum": [mb, cb], "order": order, "members": bad}, True)
     hv = hp_values(ck.rng, tier)
     for raw in hv:
         bad = hp_oracle_case(raw)
